@@ -169,6 +169,7 @@ type Composite struct {
 	Funcs    []*Func
 	Conforms []*Interface
 	T        *Type
+	Extra    string // extra members, rendered verbatim
 }
 
 type Event struct {
